@@ -267,3 +267,33 @@ Example C20_write_scalar_mismatch_example :
   In 5 [3; 4; 5; 6; 7; 13; 14; 15; 16; 17; 18] /\ GT_I64 <> gotype_of_kind 5 /\ write_scalar false 5 [8] (GInt GT_I64 1) = ([8], 1) /\
   write_scalar true 5 [8] (GInt GT_I64 4294967297) = ([8; 1], 0).
 Proof. repeat split; try (cbn; intuition); vm_compute; try reflexivity; discriminate. Qed.
+
+(* ================================================================== skipping all the elements of a list field *)
+(* proto/binary SkipAllElements / SkipAllElementsOf (model/ProtoSkipAll.v, tied to the code by check 2011): exact element count
+   and exact number of bytes consumed, or an error *)
+From DG Require Import ProtoSkipAll ProtoSkipAllProofs.
+
+Theorem C20_skip_all_packed_exact :
+  forall n k xs rest,
+  1 <= n <= ProtoMsg.MAX_FIELD_NUMBER -> ProtoMsg.is_numeric k = true -> Forall (fun x => ProtoMsg.scalar_okb k x = true) xs ->
+  ProtoMsg.plen (flat_map (fun x => ProtoMsg.wenc_val (ProtoMsg.scalar_to_wire k x)) xs) < 2 ^ 63 ->
+  let field := ProtoMsg.wenc [(n, ProtoMsg.WBytes (flat_map (fun x => ProtoMsg.wenc_val (ProtoMsg.scalar_to_wire k x)) xs))] in
+  skip_all_elements n true (ProtoMsg.wt_of_kind k) (field ++ rest) = Some (Z.of_nat (length xs), ProtoMsg.plen field).
+Proof. exact skip_all_packed_exact. Qed.
+Print Assumptions C20_skip_all_packed_exact.
+
+(* a packed fixed32 / fixed64 (float / double / sfixed) payload whose declared length is not a multiple of the element
+   width is an error, whatever bytes follow *)
+Theorem C20_skip_all_fixed_misaligned :
+  forall n ewt w l payload rest,
+  (ewt = 5 /\ w = 4) \/ (ewt = 1 /\ w = 8) -> 1 <= n <= ProtoMsg.MAX_FIELD_NUMBER -> 0 <= l < 2 ^ 63 -> l mod w <> 0 ->
+  skip_all_elements n true ewt (varint_enc (n * 8 + 2) ++ varint_enc l ++ payload ++ rest) = None.
+Proof. exact skip_all_fixed_misaligned. Qed.
+Print Assumptions C20_skip_all_fixed_misaligned.
+
+Example C20_skip_all_example :
+  skip_all_elements 4 true 5 ([34; 8; 1; 0; 0; 0; 2; 0; 0; 0] ++ [40; 7]) = Some (2, 10) /\
+  skip_all_elements 4 true 5 ([34; 7; 1; 0; 0; 0; 2; 0; 0] ++ [40; 7]) = None /\
+  skip_all_elements 1 true 0 [10; 3; 172; 2; 5; 16; 1] = Some (2, 5) /\
+  skip_all_elements 11 false 2 [90; 1; 97; 90; 0; 16; 1] = Some (2, 5).
+Proof. repeat split; vm_compute; reflexivity. Qed.
